@@ -150,14 +150,22 @@ def executePassage (c : ECfg S) (pid : String) (l : Live S.V) : NRes S (Option S
 
 /-! ### `goto` -/
 
-/-- index of the `)` matching the first `(`, scanning with a depth counter -/
-def matchParen : Nat → List Char → Option (List Char)
-  | _, [] => none
-  | d, c :: cs =>
-    if c == '(' then (matchParen (d + 1) cs).map (c :: ·)
+/-- the text up to the `)` matching the first `(`, scanning with a depth counter; inside a string literal (`q` = its quote
+character) a parenthesis is text and a backslash skips the next character -/
+def matchParenQ : Nat → Option Char → List Char → Option (List Char)
+  | _, _, [] => none
+  | d, some q, c :: cs =>
+    if c == '\\' then (match cs with | [] => none | c' :: cs' => (matchParenQ d (some q) cs').map (c :: c' :: ·))
+    else if c == q then (matchParenQ d none cs).map (c :: ·)
+    else (matchParenQ d (some q) cs).map (c :: ·)
+  | d, none, c :: cs =>
+    if c == '"' || c == '\'' then (matchParenQ d (some c) cs).map (c :: ·)
+    else if c == '(' then (matchParenQ (d + 1) none cs).map (c :: ·)
     else if c == ')' then
-      if d == 1 then some [] else (matchParen (d - 1) cs).map (c :: ·)
-    else (matchParen d cs).map (c :: ·)
+      if d == 1 then some [] else (matchParenQ (d - 1) none cs).map (c :: ·)
+    else (matchParenQ d none cs).map (c :: ·)
+
+def matchParen (d : Nat) (cs : List Char) : Option (List Char) := matchParenQ d none cs
 
 /-- split `Name(args)` : passage id and argument text -/
 def parseSpec (spec : String) : Except Exc (String × String) :=
